@@ -57,6 +57,14 @@ def make_cases(rng, tier):
             up = gen.rand_seq(rng, h)
         rec = "N".join(up + m + lo for m in order)
         cases.append({"k": k, "rc": oi % 3 == 0, "recs": [rec]})
+    # the same for a split k-mer whose arms are their own reverse complement (with both strands every sighting adds the base
+    # and its complement): every ordered pair of middle bases
+    for oi, (m1, m2) in enumerate(itertools.permutations("ACGT", 2)):
+        k = [5, 7, 31, 35][oi % 4]
+        w = gen.selfrc_window(rng, k)
+        h = (k - 1) // 2
+        rec = w[:h] + m1 + w[h + 1:] + "N" + w[:h] + m2 + w[h + 1:]
+        cases.append({"k": k, "rc": True, "recs": [rec]})
     return cases
 
 
